@@ -115,7 +115,7 @@ def behaviour(ann, comp, glb):
             out.append(ov(v))
         except TypeError as e:
             s = str(e)
-            out.append("AMBIGUOUS" if s.startswith("Ambiguous") else "NOMETHOD" if s.startswith("No method") else "TypeError")
+            out.append("AMBIGUOUS" if __import__("_errs").amb(s) else "NOMETHOD" if __import__("_errs").nomethod(s) else "TypeError")
         except Exception as e:
             out.append(type(e).__name__)
     return out
@@ -162,7 +162,7 @@ def main():
             try:
                 res.append(ov(*a_))
             except TypeError as e:
-                res.append("AMBIGUOUS" if str(e).startswith("Ambiguous") else "TypeError")
+                res.append("AMBIGUOUS" if __import__("_errs").amb(str(e)) else "TypeError")
         return res
 
     n += 1
@@ -177,7 +177,7 @@ def main():
     try:
         got = ov(A())
     except TypeError as e:
-        got = "AMBIGUOUS" if str(e).startswith("Ambiguous") else "TypeError"
+        got = "AMBIGUOUS" if __import__("_errs").amb(str(e)) else "TypeError"
     if got != "second":
         fail("known_union_eq_order.reordered_union_is_the_same_signature", got=got)
     print(json.dumps(dict(evaluations=n, failing=list(failing.values())), default=repr))
